@@ -710,6 +710,34 @@ struct SignalingSnapshot {
     )>,
 }
 
+/// Restores the [`SignalingSnapshot`] taken at construction when dropped, unless disarmed:
+/// error returns (and cancelled calls) leave the connection as they found it.
+struct SignalingUndo<'a> {
+    pc: &'a PeerConnection,
+    snapshot: Option<SignalingSnapshot>,
+}
+
+impl<'a> SignalingUndo<'a> {
+    fn new(pc: &'a PeerConnection) -> Self {
+        Self {
+            pc,
+            snapshot: Some(pc.signaling_snapshot()),
+        }
+    }
+
+    fn disarm(&mut self) {
+        self.snapshot = None;
+    }
+}
+
+impl Drop for SignalingUndo<'_> {
+    fn drop(&mut self) {
+        if let Some(snapshot) = self.snapshot.take() {
+            self.pc.restore_signaling(snapshot);
+        }
+    }
+}
+
 pub(crate) fn generate_sdes_key_params() -> String {
     let mut key_salt = [0u8; 30];
     rand::fill(&mut key_salt);
@@ -1297,18 +1325,12 @@ impl PeerConnection {
                 .set_role(crate::transports::ice::IceRole::Controlling);
         }
         // build_description assigns mids before it binds sockets; if it fails, give them back.
-        let snapshot = self.signaling_snapshot();
-        let desc = match self
+        let mut undo = SignalingUndo::new(self);
+        let desc = self
             .inner
             .build_description(SdpType::Offer, |dir| dir)
-            .await
-        {
-            Ok(desc) => desc,
-            Err(err) => {
-                self.restore_signaling(snapshot);
-                return Err(err);
-            }
-        };
+            .await?;
+        undo.disarm();
         if self.inner.config.transport_mode == TransportMode::Rtp && !Self::sdp_has_bundle(&desc) {
             for (media_index, (transceiver, _)) in self
                 .matched_rtp_media_sections(&desc)
@@ -1336,15 +1358,13 @@ impl PeerConnection {
         self.inner
             .ice_transport
             .set_role(crate::transports::ice::IceRole::Controlled);
-        let snapshot = self.signaling_snapshot();
-        let result = self
+        let mut undo = SignalingUndo::new(self);
+        let desc = self
             .inner
             .build_description(SdpType::Answer, |dir| dir.answer_direction())
-            .await;
-        if result.is_err() {
-            self.restore_signaling(snapshot);
-        }
-        result
+            .await?;
+        undo.disarm();
+        Ok(desc)
     }
 
     pub fn set_local_description(&self, desc: SessionDescription) -> RtcResult<()> {
@@ -1450,18 +1470,6 @@ impl PeerConnection {
         Ok(())
     }
 
-    pub async fn set_remote_description(&self, desc: SessionDescription) -> RtcResult<()> {
-        // A description is applied in several steps (re-INVITE handling, signaling transition,
-        // transceiver updates, transport start). If a late step fails (e.g. a socket cannot be
-        // bound) the call must leave everything as it was: undo what the earlier steps did.
-        let snapshot = self.signaling_snapshot();
-        let result = self.apply_remote_description(desc).await;
-        if result.is_err() {
-            self.restore_signaling(snapshot);
-        }
-        result
-    }
-
     /// What a failed signalling call has to leave untouched.
     fn signaling_snapshot(&self) -> SignalingSnapshot {
         let transceivers = self.inner.transceivers.lock().clone();
@@ -1519,7 +1527,12 @@ impl PeerConnection {
         }
     }
 
-    async fn apply_remote_description(&self, desc: SessionDescription) -> RtcResult<()> {
+    pub async fn set_remote_description(&self, desc: SessionDescription) -> RtcResult<()> {
+        // A description is applied in several steps (re-INVITE handling, signaling transition,
+        // transceiver updates, transport start). If a late step fails (e.g. a socket cannot be
+        // bound) the call must leave everything as it was: unless disarmed on success, the
+        // guard undoes what the earlier steps did.
+        let mut undo = SignalingUndo::new(self);
         self.inner.validate_sdp_type(&desc.sdp_type)?;
         let remote_dtls_fingerprint = if self.config().transport_mode == TransportMode::WebRtc {
             match desc.dtls_fingerprint() {
@@ -1642,6 +1655,7 @@ impl PeerConnection {
             debug!(
                 "Remote SDP media parameters unchanged; updated signaling state without reconfiguring transports"
             );
+            undo.disarm();
             return Ok(());
         }
 
@@ -2135,6 +2149,7 @@ impl PeerConnection {
         // destination in sync across answers and re-INVITEs.
         self.update_rtcp_mux_from_remote();
 
+        undo.disarm();
         Ok(())
     }
 
